@@ -959,7 +959,8 @@ impl<'a> CompilerState<'a> {
         let p = pairs.next().unwrap();
         match p.as_rule() {
             Rule::primary_var_type => {
-                let s = p.as_str();
+                // The spelling between the words of a type is layout
+                let s = p.as_str().split_whitespace().collect::<Vec<_>>().join(" ");
                 if s.contains("*") {
                     Ok(2)
                 } else if s == "char" {
